@@ -104,6 +104,12 @@ class Analyzer:
                 out |= self.tok(v, env, res)
             return out
         if isinstance(e, ast.IfExp):
+            # the path assumption (``inplace`` is False) selects the branch exactly as it does for an ``if`` statement
+            known = self._assumed(e.test)
+            if known is True:
+                return self.tok(e.body, env, res)
+            if known is False:
+                return self.tok(e.orelse, env, res)
             return self.tok(e.body, env, res) | self.tok(e.orelse, env, res)
         if isinstance(e, (ast.ListComp, ast.SetComp, ast.DictComp, ast.GeneratorExp, ast.List, ast.Tuple, ast.Set,
                           ast.Dict, ast.JoinedStr, ast.Lambda)):
